@@ -504,3 +504,45 @@ def r9(ctx, R):
     fn = repo.func(rel, 'SweeperMPI.predict')
     raises = [ast.unparse(x)[:60] for x in ast.walk(fn) if isinstance(x, ast.Raise)]
     R.check(any('ParameterError' in r for r in raises), "SweeperMPI.predict :: an initial guess the parallel predictor does not implement ('random') raises instead of leaving the node empty", w, 'else: raise ParameterError', raises)
+
+
+@rule('C08', 'C08.R10', 'linearized embedded error: the MPI flavour forwards to the next rank exactly what the serial flavour carries to the next step (the accumulated estimate), and both subtract the carried value in the same formula', floor=3)
+def r10(ctx, R):
+    repo = ctx.repo
+    rel = CC + 'estimate_embedded_error.py'
+    fs = repo.func(rel, 'EstimateEmbeddedErrorLinearizedNonMPI.post_iteration_processing')
+    fm = repo.func(rel, 'EstimateEmbeddedErrorLinearizedMPI.post_iteration_processing')
+    w = f'{rel}:EstimateEmbeddedErrorLinearizedMPI.post_iteration_processing'
+    R.fn(w)
+    def src_of(fn, name):
+        return [ast.unparse(s.value) for s in ast.walk(fn) if isinstance(s, ast.Assign) and ast.unparse(s.targets[0]) == name]
+    carried = [re.sub(r' \* 1\.0$', '', x) for x in src_of(fs, 'self.buffers.e_em_last')]
+    sends = [c for c in ast.walk(fm) if isinstance(c, ast.Call) and ast.unparse(c.func) == 'self.send']
+    payload = [_kw(c).get('data') for c in sends]
+    same_def = src_of(fs, 'temp') == src_of(fm, 'temp') == ['self.estimate_embedded_error_serial(L)']
+    R.check(len(carried) == 1 and payload == carried and same_def, 'EstimateEmbeddedErrorLinearizedMPI :: send(data=..) forwards the value the serial flavour stores in buffers.e_em_last', w, {'serial carries': carried, 'definition': 'temp = self.estimate_embedded_error_serial(L)'}, {'MPI sends': payload, 'temp (serial)': src_of(fs, 'temp'), 'temp (MPI)': src_of(fm, 'temp')})
+    es = [re.sub(r' / averaging', '', x) for x in src_of(fs, 'L.status.error_embedded_estimate')]
+    em = src_of(fm, 'L.status.error_embedded_estimate')
+    R.check(es == em and len(em) == 1, 'EstimateEmbeddedErrorLinearized :: both flavours use max(|accumulated - carried|, eps)', w, es, em)
+    rcv = [ast.unparse(s) for s in ast.walk(fm) if isinstance(s, ast.Assign) and ast.unparse(s.targets[0]) == 'self.buffers.e_em_last']
+    R.check(sorted(rcv) == sorted(['self.buffers.e_em_last = self.recv(comm, S.status.slot - 1)', 'self.buffers.e_em_last = 0.0']), 'EstimateEmbeddedErrorLinearizedMPI :: the carried value is what the previous rank sent (0 on the first rank)', w, ['recv(comm, slot - 1)', '0.0 on the first rank'], rcv)
+
+
+@rule('C08', 'C08.R11', 'shift exchange of the restart counters: the send towards slot - restart_from is non-blocking and is NOT completed before the receive is posted (for restart_from = 0 the peer is the rank itself: Wait-before-Recv deadlocks under rendezvous completion)', floor=2)
+def r11(ctx, R):
+    repo = ctx.repo
+    rel = CC + 'basic_restarting.py'
+    fn = repo.func(rel, 'BasicRestartingMPI.prepare_next_block')
+    w = f'{rel}:BasicRestartingMPI.prepare_next_block'
+    R.fn(w)
+    cfg = FuncCFG(fn)
+    snd = [(n, c) for n in cfg.stmt_of for c in cfg.calls_at(n) if ast.unparse(c.func) == 'self.Send']
+    rcv = [(n, c) for n in cfg.stmt_of for c in cfg.calls_at(n) if ast.unparse(c.func) == 'self.Recv']
+    if len(snd) != 1 or len(rcv) != 1:
+        raise AnalysisError(f'{w}: expected one Send and one Recv')
+    ks, kr = _kw(snd[0][1]), _kw(rcv[0][1])
+    ok = ks.get('dest') == 'S.status.slot - restart_from' and kr.get('source') == 'S.status.slot + restart_from' and ks.get('blocking') == 'False'
+    R.check(ok, 'BasicRestartingMPI.prepare_next_block :: counters move by restart_from slots: Send(dest=slot - restart_from, non-blocking) <-> Recv(source=slot + restart_from)', w, {'dest': 'S.status.slot - restart_from', 'source': 'S.status.slot + restart_from', 'blocking': 'False'}, {'dest': ks.get('dest'), 'source': kr.get('source'), 'blocking': ks.get('blocking')})
+    waits = [n for n in cfg.stmt_of for c in cfg.calls_at(n) if isinstance(c.func, ast.Attribute) and c.func.attr in ('Wait', 'wait', 'Waitall')]
+    early = [ast.unparse(cfg.stmt_of[n])[:60] for n in waits if cfg.reachable(snd[0][0], n) and cfg.reachable(n, rcv[0][0])]
+    R.check(not early, 'BasicRestartingMPI.prepare_next_block :: no completion of the send between posting it and posting the receive', w, 'no Wait on a path from the Send to the Recv', early)
